@@ -448,13 +448,18 @@ Open Scope Z_scope.
 Example adele_profile_shipped : exists p, profile_of "adele" = Some p /\ In ("디바이드", "디바이드 VI") (p_mastery p).
 Proof. eexists. split; [reflexivity|]. vm_compute. tauto. Qed.
 
-(* a concrete figure really moves: adele 샤드 damage at effective level 0, 30, 32 *)
-Example shard_values :
-  exists g p, In g figures /\ g_damage g = true /\ profile_of (g_job g) = Some p /\ g_skill g = "샤드" /\
-  figure_value (doc_cfg p (mkDoc 30 1 0 0 0 60 0) []) g = Some (360#1)%Q /\
-  figure_value (doc_cfg p (mkDoc 30 1 30 0 2 60 0) []) g = Some (366#1)%Q.
+(* a concrete figure really moves, and an explicit level 0 is level 0: adele 루인 (a v-skill, 250 + 10 * level) *)
+Example ruin_level_0_is_level_0 :
+  exists g, In g figures /\ g_damage g = true /\ profile_of (g_job g) = Some profile_adele /\ g_skill g = "루인" /\
+    figure_value (doc_cfg profile_adele (mkDoc 0 1 0 0 0 60 0) []) g = Some 250%Q /\
+    figure_value (doc_cfg profile_adele (mkDoc 1 1 0 0 0 60 0) []) g = Some 260%Q /\
+    figure_value (doc_cfg profile_adele (mkDoc 30 1 0 0 2 60 0) []) g = Some 570%Q.
 Proof.
-  pose (g := nth 1 (filter (fun g => String.eqb (g_skill g) "샤드" && String.eqb (g_job g) "adele") figures) (nth 0 figures (mkFig 0 "" "" [] (BC 0) [] false))).
-  exists (nth 0 (filter (fun g => String.eqb (g_skill g) "샤드" && String.eqb (g_job g) "adele") figures) (nth 0 figures (mkFig 0 "" "" [] (BC 0) [] false))).
-  eexists. vm_compute. repeat split; try reflexivity. tauto.
+  destruct (find (fun g => String.eqb (g_job g) "adele" && String.eqb (g_skill g) "루인") figures) as [g|] eqn:E; [|vm_compute in E; discriminate].
+  destruct (find_some _ _ E) as [Hin _]. vm_compute in E. injection E as <-.
+  eexists. split; [exact Hin|]. vm_compute. repeat split; reflexivity.
 Qed.
+
+(* the documented corner configurations satisfy the hypotheses of the headline theorems *)
+Example doc_ok_corners : doc_ok (mkDoc 0 0 0 0 0 0 0) /\ doc_ok (mkDoc 30 30 30 2 2 60 30) /\ doc_le (mkDoc 0 0 0 0 0 0 0) (mkDoc 30 30 30 2 2 60 30).
+Proof. unfold doc_ok, doc_le, max_skill_level, max_offset, max_v_improvement, max_hexa_improvement. cbn. lia. Qed.
